@@ -460,7 +460,8 @@ void simfs_emit_outputs(FILE *o, int opidx)
     if (g_stdout_file.n) { fprintf(o, "o %d stdout ", opidx); emit_hex(o, g_stdout_file.data, g_stdout_file.n); fputc('\n', o); g_stdout_file.n = 0; }
     if (g_stderr_file.n) { fprintf(o, "o %d stderr ", opidx); emit_hex(o, g_stderr_file.data, g_stderr_file.n); fputc('\n', o); g_stderr_file.n = 0; }
     for (SFile *f = g_files; f; f = f->next) if (f->written) {
-        fprintf(o, "o %d file:%s ", opidx, f->path); emit_hex(o, f->data, f->n); fputc('\n', o);
+        /* the path goes over the line protocol in hex: a file name may hold blanks ("--out ' '") */
+        fprintf(o, "o %d filex:", opidx); emit_hex(o, (const unsigned char *)f->path, strlen(f->path)); fputc(' ', o); emit_hex(o, f->data, f->n); fputc('\n', o);
         f->written = 0;
     }
 }
